@@ -12,6 +12,7 @@ def incrTotal (k : Nat) : List Cmd → Int
 def Cmd.clobbers (k : Nat) : Cmd → Bool
   | .set k' _ => k' == k
   | .delete k' => k' == k
+  | .setx k' _ _ => k' == k
   | _ => false
 
 /-- writes `k` at all -/
@@ -19,6 +20,7 @@ def Cmd.writes (k : Nat) : Cmd → Bool
   | .set k' _ => k' == k
   | .delete k' => k' == k
   | .incr k' _ => k' == k
+  | .setx k' _ _ => k' == k
   | _ => false
 
 /-- `k` is a pure counter for this task: transactions only `incr` it, tasks outside a transaction do not write it -/
@@ -29,6 +31,8 @@ def OnlyIncr (k : Nat) (isTx : Bool) (prog : List Cmd) : Prop :=
 def Task.rem (t : Task) : List Cmd :=
   match t.pc with
   | .seedGet k n => .incr k n :: t.prog
+  | .expGet k => .expire k :: t.prog
+  | .existsGet k v e => .setx k v e :: t.prog
   | .direct c => c :: t.prog
   | _ => t.prog
 
@@ -86,6 +90,17 @@ structure CI (k : Nat) (S : Int) (p0 : List Cmd) (t : Task) : Prop where
   seed : ∀ n, t.pc = .seedGet k n → t.ov.get k = none ∧ lockKeyOf t.mode k ∈ t.locks
   txpc : t.isTx = true → t.ctx = false → t.pc = .start
   commitp : (t.pc = .commitDel ∨ t.pc = .commitSet) → t.prog = []
+  eseed : t.pc = .expGet k → t.ov.get k = none ∧ lockKeyOf t.mode k ∈ t.locks
+
+theorem CBody_setxApply {k : Nat} {S T0 : Int} {rem : List Cmd} {t : Task} (h : CBody k S T0 rem t)
+    {k' : Nat} (hne : k' ≠ k) (v : Int) (e p : Bool) : CBody k S T0 rem (setxApply t k' v e p) := by
+  unfold setxApply
+  split
+  · refine ⟨h.noclob, ?_, ?_, ?_⟩
+    · simp [h.nodel]
+    · intro v' hv; simp only [AL.get_put, hne, if_false] at hv; exact h.some_ v' hv
+    · intro hv; simp only [AL.get_put, hne, if_false] at hv; exact h.none_ hv
+  · exact ⟨h.noclob, h.nodel, h.some_, h.none_⟩
 
 theorem CBody_localCmd {k : Nat} {S T0 : Int} {c : Cmd} {rest : List Cmd} {t t' : Task}
     (h : CBody k S T0 (c :: rest) t) (hl : localCmd t c = some t') : CBody k S T0 rest t' := by
@@ -145,6 +160,25 @@ theorem CBody_localCmd {k : Nat} {S T0 : Int} {c : Cmd} {rest : List Cmd} {t t' 
     · simp [h.nodel, Ne.symm hne]
     · intro v' hv; simp only [AL.get_erase, hne, if_false] at hv; simpa [incrTotal] using h.some_ v' hv
     · intro hv; simp only [AL.get_erase, hne, if_false] at hv; simpa [incrTotal] using h.none_ hv
+  case expire k' =>
+    split at hl
+    · split at hl
+      · simp at hl; subst hl
+        exact ⟨hrest, h.nodel, fun v' hv => by simpa [incrTotal] using h.some_ v' hv, fun hv => by simpa [incrTotal] using h.none_ hv⟩
+      · split at hl <;> simp at hl
+        subst hl
+        exact ⟨hrest, h.nodel, fun v' hv => by simpa [incrTotal] using h.some_ v' hv, fun hv => by simpa [incrTotal] using h.none_ hv⟩
+    · simp at hl
+  case setx k' v e =>
+    have hne : k' ≠ k := by simpa [Cmd.clobbers] using hc
+    have h' : CBody k S T0 rest t :=
+      ⟨hrest, h.nodel, fun v' hv => by simpa [incrTotal] using h.some_ v' hv, fun hv => by simpa [incrTotal] using h.none_ hv⟩
+    split at hl
+    · split at hl
+      · simp at hl; subst hl; exact CBody_setxApply h' hne _ _ _
+      · split at hl <;> simp at hl
+        subst hl; exact CBody_setxApply h' hne _ _ _
+    · simp at hl
   case sleep d => simp at hl
   case raise => simp at hl
   case nestIn f =>
@@ -162,17 +196,18 @@ structure CPark (k : Nat) (S T0 : Int) (t : Task) : Prop where
   comm : t.committed = true → T0 = 0
   nostart : t.pc ≠ .start
   commitp : (t.pc = .commitDel ∨ t.pc = .commitSet) → t.prog = []
+  eseed : t.pc = .expGet k → t.ov.get k = none ∧ lockKeyOf t.mode k ∈ t.locks
 
 theorem CPark_abort {k : Nat} {S T0 : Int} {t : Task} (hc : t.ctx = true) (o : Outcome)
     (ho : ∀ rs, o ≠ .returned rs) : CPark k S T0 (abort t o) := by
   unfold abort
-  split <;> refine ⟨hc, ?_, ?_, ?_, ?_, ?_⟩ <;> simp [Task.active, Task.committed]
+  split <;> refine ⟨hc, ?_, ?_, ?_, ?_, ?_, ?_⟩ <;> simp [Task.active, Task.committed]
   all_goals cases o <;> simp_all
 
 theorem CPark_afterCommit {k : Nat} {S T0 : Int} {t : Task} (hc : t.ctx = true) (h0 : T0 = 0) :
     CPark k S T0 (afterCommit t) := by
   unfold afterCommit
-  split <;> refine ⟨hc, ?_, ?_, ?_, ?_, ?_⟩ <;> simp [Task.active, Task.committed, h0]
+  split <;> refine ⟨hc, ?_, ?_, ?_, ?_, ?_, ?_⟩ <;> simp [Task.active, Task.committed, h0]
 
 theorem CPark_settle {k : Nat} {S T0 : Int} (now : Nat) (prog : List Cmd) (t : Task)
     (hc : t.ctx = true) (hm : t.mode ≠ .fast) (h : CBody k S T0 prog t) : CPark k S T0 (settle now prog t) := by
@@ -185,10 +220,10 @@ theorem CPark_settle {k : Nat} {S T0 : Int} (now : Nat) (prog : List Cmd) (t : T
     unfold endOfProg
     rw [if_pos hc]
     split
-    · refine ⟨hc, ?_, ?_, ?_, ?_, ?_⟩ <;> simp [Task.active, Task.committed, Task.rem]
+    · refine ⟨hc, ?_, ?_, ?_, ?_, ?_, ?_⟩ <;> simp [Task.active, Task.committed, Task.rem]
       exact ⟨h.noclob, h.nodel, h.some_, h.none_⟩
     · split
-      · refine ⟨hc, ?_, ?_, ?_, ?_, ?_⟩ <;> simp [Task.active, Task.committed, Task.rem]
+      · refine ⟨hc, ?_, ?_, ?_, ?_, ?_, ?_⟩ <;> simp [Task.active, Task.committed, Task.rem]
         exact ⟨h.noclob, h.nodel, h.some_, h.none_⟩
       · rename_i hov
         have hov' : t.ov = [] := by simpa using hov
@@ -200,24 +235,24 @@ theorem CPark_settle {k : Nat} {S T0 : Int} (now : Nat) (prog : List Cmd) (t : T
     have hrest : ∀ c' ∈ rest, c'.clobbers k = false := fun c' hc' => h.noclob c' (List.mem_cons_of_mem _ hc')
     cases c <;> simp only [park] <;> (try rw [if_pos hc])
     case sleep d =>
-      refine ⟨hc, ?_, ?_, ?_, ?_, ?_⟩ <;> simp [Task.active, Task.committed, Task.rem]
+      refine ⟨hc, ?_, ?_, ?_, ?_, ?_, ?_⟩ <;> simp [Task.active, Task.committed, Task.rem]
       exact ⟨hrest, h.nodel, fun v hv => by simpa [incrTotal] using h.some_ v hv, fun hv => by simpa [incrTotal] using h.none_ hv⟩
     case raise => exact CPark_abort hc _ (by simp)
     case set k' v =>
       unfold lockOrFail; split
       · exact CPark_abort hc _ (by simp)
-      · refine ⟨hc, ?_, ?_, ?_, ?_, ?_⟩ <;> simp [Task.active, Task.committed, Task.rem]
+      · refine ⟨hc, ?_, ?_, ?_, ?_, ?_, ?_⟩ <;> simp [Task.active, Task.committed, Task.rem]
         exact ⟨h.noclob, h.nodel, h.some_, h.none_⟩
     case delete k' =>
       unfold lockOrFail; split
       · exact CPark_abort hc _ (by simp)
-      · refine ⟨hc, ?_, ?_, ?_, ?_, ?_⟩ <;> simp [Task.active, Task.committed, Task.rem]
+      · refine ⟨hc, ?_, ?_, ?_, ?_, ?_, ?_⟩ <;> simp [Task.active, Task.committed, Task.rem]
         exact ⟨h.noclob, h.nodel, h.some_, h.none_⟩
     case incr k' n =>
       split
       · rename_i hh
         simp only [localCmd, hc, hh, Bool.and_self, if_true] at hl
-        refine ⟨hc, ?_, ?_, ?_, ?_, ?_⟩ <;> simp [Task.active, Task.committed, Task.rem]
+        refine ⟨hc, ?_, ?_, ?_, ?_, ?_, ?_⟩ <;> simp [Task.active, Task.committed, Task.rem]
         · exact ⟨h.noclob, h.nodel, h.some_, h.none_⟩
         · intro hk
           subst hk
@@ -231,11 +266,39 @@ theorem CPark_settle {k : Nat} {S T0 : Int} (now : Nat) (prog : List Cmd) (t : T
             simpa using this
       · unfold lockOrFail; split
         · exact CPark_abort hc _ (by simp)
-        · refine ⟨hc, ?_, ?_, ?_, ?_, ?_⟩ <;> simp [Task.active, Task.committed, Task.rem]
+        · refine ⟨hc, ?_, ?_, ?_, ?_, ?_, ?_⟩ <;> simp [Task.active, Task.committed, Task.rem]
           exact ⟨h.noclob, h.nodel, h.some_, h.none_⟩
     case get k' =>
-      refine ⟨hc, ?_, ?_, ?_, ?_, ?_⟩ <;> simp [Task.active, Task.committed, Task.rem]
+      refine ⟨hc, ?_, ?_, ?_, ?_, ?_, ?_⟩ <;> simp [Task.active, Task.committed, Task.rem]
       exact ⟨hrest, h.nodel, fun v hv => by simpa [incrTotal] using h.some_ v hv, fun hv => by simpa [incrTotal] using h.none_ hv⟩
+    case expire k' =>
+      split
+      · rename_i hh
+        simp only [localCmd, hc, hh, Bool.and_self, if_true] at hl
+        refine ⟨hc, ?_, ?_, ?_, ?_, ?_, ?_⟩ <;> simp [Task.active, Task.committed, Task.rem]
+        · exact ⟨h.noclob, h.nodel, h.some_, h.none_⟩
+        · intro hk
+          subst hk
+          refine ⟨?_, ?_⟩
+          · cases hg : t.ov.get k' with
+            | none => rfl
+            | some v => simp [hg] at hl
+          · have : holds t k' = true := hh
+            unfold holds at this
+            simp [hm] at this
+            simpa using this
+      · unfold lockOrFail; split
+        · exact CPark_abort hc _ (by simp)
+        · refine ⟨hc, ?_, ?_, ?_, ?_, ?_, ?_⟩ <;> simp [Task.active, Task.committed, Task.rem]
+          exact ⟨h.noclob, h.nodel, h.some_, h.none_⟩
+    case setx k' v e =>
+      split
+      · refine ⟨hc, ?_, ?_, ?_, ?_, ?_, ?_⟩ <;> simp [Task.active, Task.committed, Task.rem]
+        exact ⟨h.noclob, h.nodel, h.some_, h.none_⟩
+      · unfold lockOrFail; split
+        · exact CPark_abort hc _ (by simp)
+        · refine ⟨hc, ?_, ?_, ?_, ?_, ?_, ?_⟩ <;> simp [Task.active, Task.committed, Task.rem]
+          exact ⟨h.noclob, h.nodel, h.some_, h.none_⟩
     case nestIn f => simp [localCmd] at hl
     case nestOut => simp [localCmd] at hl
 
@@ -246,7 +309,8 @@ theorem CI_of_CPark {k : Nat} {S : Int} {p0 : List Cmd} {t : Task} (h : CPark k 
     body := fun _ ha => h.body ha
     seed := h.seed
     txpc := fun _ hc => by rw [h.ctx] at hc; cases hc
-    commitp := h.commitp }
+    commitp := h.commitp
+    eseed := h.eseed }
 
 theorem rem_abort (t : Task) (o : Outcome) : (abort t o).rem = [] := by
   unfold abort; split <;> simp [Task.rem]
@@ -310,12 +374,13 @@ theorem CStep_plain {k : Nat} {p0 : List Cmd} {S : Int} {t : Task} {E : Eff}
   have hntx' : E.task.isTx = false := hi.trans hntx
   have hcf : E.task.ctx = false := hti.plain_ctx hntx'
   refine { ci := ?_, delta := ?_, changed := fun h => absurd hst h, isTx := hi, mode := hm }
-  · refine { plain := fun _ => hrem, start := ?_, body := ?_, seed := ?_, txpc := ?_, commitp := ?_ }
+  · refine { plain := fun _ => hrem, start := ?_, body := ?_, seed := ?_, txpc := ?_, commitp := ?_, eseed := ?_ }
     · intro h; rw [hntx'] at h; cases h
     · intro h; rw [hcf] at h; cases h
     · intro n hpc; have := hti.noctx_pc hcf; simp [hpc, PC.plainOk] at this
     · intro h; rw [hntx'] at h; cases h
     · intro hpc; have := hti.noctx_pc hcf; rcases hpc with hpc | hpc <;> simp [hpc, PC.plainOk] at this
+    · intro hpc; have := hti.noctx_pc hcf; simp [hpc, PC.plainOk] at this
   · rw [hst]; simp [contrib, hntx, hntx']
 
 /-- the task itself is unchanged apart from its pc, which stays among the active, non-start ones; store unchanged -/
@@ -338,13 +403,14 @@ theorem CI_repc {k : Nat} {S : Int} {p0 : List Cmd} {t : Task} (pc' : PC) (hc : 
     (hb : ({ t with pc := pc' } : Task).active = true →
       CBody k S (incrTotal k p0) ({ t with pc := pc' } : Task).rem t)
     (hseed : ∀ n, pc' ≠ .seedGet k n) (hstart : pc' ≠ .start)
-    (hcp : (pc' = .commitDel ∨ pc' = .commitSet) → t.prog = []) : CI k S p0 { t with pc := pc' } :=
+    (hcp : (pc' = .commitDel ∨ pc' = .commitSet) → t.prog = []) (heseed : pc' ≠ .expGet k) : CI k S p0 { t with pc := pc' } :=
   { plain := fun h => by rw [show ({ t with pc := pc' } : Task).isTx = t.isTx from rfl, htx] at h; cases h
     start := fun _ h => absurd h hstart
     body := fun _ ha => CBody_of_eq (hb ha) rfl rfl rfl rfl
     seed := fun n h => absurd h (hseed n)
     txpc := fun _ h => by rw [show ({ t with pc := pc' } : Task).ctx = t.ctx from rfl, hc] at h; cases h
-    commitp := hcp }
+    commitp := hcp
+    eseed := fun h => absurd h heseed }
 
 theorem holds_mem {t : Task} {k : Nat} (hm : t.mode ≠ .fast) (h : holds t k = true) : lockKeyOf t.mode k ∈ t.locks := by
   unfold holds at h
@@ -383,7 +449,7 @@ theorem counter_taskStep {k : Nat} {p0 : List Cmd} {S : Int} {t : Task} (hti : t
     cases hf : lockFree lock (lockKeyOf t.mode k') now
     · rw [taskStep_lockTry_busy _ _ _ _ _ hpc hf]
       refine CStep_same hS ?_ (by simp [Task.committed, hpc]) rfl rfl
-      exact CI_repc _ hc htx (fun _ => by simpa [Task.rem] using hb) (by simp) (by simp) (by simp)
+      exact CI_repc _ hc htx (fun _ => by simpa [Task.rem] using hb) (by simp) (by simp) (by simp) (by simp)
     · rw [taskStep_lockTry_free _ _ _ _ _ hpc hf]
       refine CStep_of_CPark hS ?_ ((Frame_settle _ _ _).isTx.trans htx) (by simp [Task.committed, hpc])
         (Frame_settle _ _ _).isTx (Frame_settle _ _ _).mode
@@ -438,6 +504,64 @@ theorem counter_taskStep {k : Nat} {p0 : List Cmd} {S : Int} {t : Task} (hti : t
     refine CStep_of_CPark hS ?_ ((Frame_settle _ _ _).isTx.trans htx) (by simp [Task.committed, hpc])
       (Frame_settle _ _ _).isTx (Frame_settle _ _ _).mode
     exact CPark_settle now _ _ hc (hmf htx) ⟨hb.noclob, hb.nodel, hb.some_, hb.none_⟩
+  case expGet k' =>
+    have hc := TI.ctx_of_pc hti (by simp [hpc, PC.plainOk])
+    have htx := (hti.ctx_tx hc)
+    have hb := hci.body hc (by simp [Task.active, hpc])
+    have hrem : t.rem = .expire k' :: t.prog := by simp [Task.rem, hpc]
+    rw [hrem] at hb
+    rw [taskStep_expGet _ _ _ _ _ hpc]
+    have f := Frame_settle_expBuffer now t k' (store k')
+    have e := expBuffer_frame t k' (store k')
+    refine CStep_of_CPark hS ?_ (f.isTx.trans htx) (by simp [Task.committed, hpc]) f.isTx f.mode
+    refine CPark_settle now _ _ (e.2.2.2.2.1.trans hc) (by rw [e.2.1]; exact hmf htx) ?_
+    rw [e.2.2.2.2.2.2.1]
+    refine ⟨fun c hc' => hb.noclob c (List.mem_cons_of_mem _ hc'), by rw [e.2.2.2.2.2.2.2.1]; exact hb.nodel, ?_, ?_⟩
+    · intro v hv
+      rw [e.2.1, e.2.2.2.2.2.1]
+      cases hs : store k' with
+      | none =>
+        simp only [hs, expBuffer] at hv
+        simpa [incrTotal] using hb.some_ v hv
+      | some v0 =>
+        simp only [hs, expBuffer, AL.get_put] at hv
+        by_cases hk : k' = k
+        · subst hk
+          simp at hv
+          have hsd := hci.eseed hpc
+          have hn := hb.none_ hsd.1
+          simp [incrTotal] at hn
+          refine ⟨hsd.2, ?_⟩
+          rw [← hS, hs, ← hv, hn]; rfl
+        · simp only [hk, if_false] at hv
+          simpa [incrTotal] using hb.some_ v hv
+    · intro hv
+      cases hs : store k' with
+      | none =>
+        simp only [hs, expBuffer] at hv
+        simpa [incrTotal] using hb.none_ hv
+      | some v0 =>
+        simp only [hs, expBuffer, AL.get_put] at hv
+        by_cases hk : k' = k
+        · simp [hk] at hv
+        · simp only [hk, if_false] at hv
+          simpa [incrTotal] using hb.none_ hv
+  case existsGet k' v e =>
+    have hc := TI.ctx_of_pc hti (by simp [hpc, PC.plainOk])
+    have htx := (hti.ctx_tx hc)
+    have hb := hci.body hc (by simp [Task.active, hpc])
+    have hrem : t.rem = .setx k' v e :: t.prog := by simp [Task.rem, hpc]
+    rw [hrem] at hb
+    have hne : k' ≠ k := by simpa [Cmd.clobbers] using hb.noclob _ List.mem_cons_self
+    rw [taskStep_existsGet _ _ _ _ _ hpc]
+    have f := Frame_settle_setx now t k' v e (store k').isSome (store k')
+    have g := setxApply_frame { t with reads := t.reads ++ [store k'] } k' v e (store k').isSome
+    refine CStep_of_CPark hS ?_ (f.isTx.trans htx) (by simp [Task.committed, hpc]) f.isTx f.mode
+    refine CPark_settle now _ _ (g.2.2.2.2.1.trans hc) (by rw [g.2.1]; exact hmf htx) ?_
+    rw [g.2.2.2.2.2.2.2.2.1]
+    refine CBody_setxApply (t := { t with reads := t.reads ++ [store k'] }) ?_ hne _ _ _
+    exact ⟨fun c hc' => hb.noclob c (List.mem_cons_of_mem _ hc'), hb.nodel,
+      fun v' hv => by simpa [incrTotal] using hb.some_ v' hv, fun hv => by simpa [incrTotal] using hb.none_ hv⟩
   case direct c =>
     have hcf := TI.noctx_of_pc hti (by simp [hpc, PC.txOk])
     have hntx : t.isTx = false := by
@@ -465,6 +589,12 @@ theorem counter_taskStep {k : Nat} {p0 : List Cmd} {S : Int} {t : Task} (hti : t
       have hne : k ≠ k' := by simp [Cmd.writes] at hcw; exact fun h => hcw h.symm
       have f := Frame_settle now t.prog t
       exact CStep_plain (by simp [Mut.apply, hne, hS]) hTI' hntx (plain_settle now _ _ hcf hrest) f.isTx f.mode
+    case expire k' =>
+      exact CStep_plain hS hTI' hntx (plain_settle now _ _ hcf hrest) (Frame_settle _ _ _).isTx (Frame_settle _ _ _).mode
+    case setx k' v e =>
+      have hne : k ≠ k' := by simp [Cmd.writes] at hcw; exact fun h => hcw h.symm
+      exact CStep_plain (by dsimp only; split <;> simp [Mut.apply, hne, hS]) hTI' hntx (plain_settle now _ _ hcf hrest)
+        (Frame_settle _ _ _).isTx (Frame_settle _ _ _).mode
     all_goals exact CStep_same hS hci rfl rfl rfl
   case commitDel =>
     have hc := TI.ctx_of_pc hti (by simp [hpc, PC.plainOk])
@@ -477,7 +607,7 @@ theorem counter_taskStep {k : Nat} {p0 : List Cmd} {S : Int} {t : Task} (hti : t
     have hst : ((Mut.delMany t.del).apply store k).getD 0 = S := by simp [Mut.apply, hb.nodel, hS]
     split
     · refine CStep_same hst ?_ (by simp [Task.committed, hpc]) rfl rfl
-      exact CI_repc _ hc htx (fun _ => by simpa [Task.rem, hprog] using hb) (by simp) (by simp) (fun _ => hprog)
+      exact CI_repc _ hc htx (fun _ => by simpa [Task.rem, hprog] using hb) (by simp) (by simp) (fun _ => hprog) (by simp)
     · rename_i hov
       have hov' : t.ov = [] := by simpa using hov
       have h0 : incrTotal k p0 = 0 := by
@@ -507,12 +637,13 @@ theorem counter_taskStep {k : Nat} {p0 : List Cmd} {S : Int} {t : Task} (hti : t
       have hst : ((Mut.setMany t.ov).apply store k).getD 0 = S + incrTotal k p0 := by simp [Mut.apply, hg, hv]
       refine { ci := ?_, delta := ?_, changed := fun _ => ⟨hc, by simp [Task.active, hpc], v, hg⟩, isTx := f.isTx, mode := f.mode }
       · dsimp only
-        refine { plain := ?_, start := ?_, body := ?_, seed := ?_, txpc := ?_, commitp := ?_ }
+        refine { plain := ?_, start := ?_, body := ?_, seed := ?_, txpc := ?_, commitp := ?_, eseed := ?_ }
         · intro h; rw [f.isTx, htx] at h; cases h
         · intro _ h; unfold afterCommit at h; split at h <;> simp at h
         · intro _ h; unfold afterCommit at h; split at h <;> simp [Task.active] at h
         · intro n h; unfold afterCommit at h; split at h <;> simp at h
         · intro _ h; rw [f.ctx, hc] at h; cases h
+        · intro h; unfold afterCommit at h; split at h <;> simp at h
         · intro h; unfold afterCommit at h; split at h <;> simp at h
       · dsimp only
         rw [hst]
@@ -524,11 +655,11 @@ theorem counter_taskStep {k : Nat} {p0 : List Cmd} {S : Int} {t : Task} (hti : t
     | nil =>
       rw [taskStep_unlocking_nil _ _ _ _ _ hpc]
       refine CStep_same hS ?_ (by cases o <;> simp [Task.committed, hpc]) rfl rfl
-      exact CI_repc _ hc htx (fun h => by simp [Task.active] at h) (by simp) (by simp) (by simp)
+      exact CI_repc _ hc htx (fun h => by simp [Task.active] at h) (by simp) (by simp) (by simp) (by simp)
     | cons l rest =>
       rw [taskStep_unlocking_cons _ _ _ _ _ hpc]
       refine CStep_same hS ?_ (by by_cases hr : rest = [] <;> cases o <;> simp [Task.committed, hpc, hr]) rfl rfl
-      refine CI_repc _ hc htx (fun h => ?_) (by intro n; split <;> simp) (by split <;> simp) (by split <;> simp)
+      refine CI_repc _ hc htx (fun h => ?_) (by intro n; split <;> simp) (by split <;> simp) (by split <;> simp) (by split <;> simp)
       split at h <;> simp [Task.active] at h
 
 theorem counter_wake {k : Nat} {p0 : List Cmd} {S : Int} {t : Task} (hti : t.TI) (hci : CI k S p0 t)
@@ -571,7 +702,7 @@ theorem counter_wake {k : Nat} {p0 : List Cmd} {S : Int} {t : Task} (hti : t.TI)
         exact ⟨CI_of_CPark hp (f.isTx.trans htx), by rw [contrib_zero_of_CPark hp, contrib_of_not_committed hnc]⟩
       · have hb := hci.body hc (by simp [Task.active, hpc])
         rw [show t.rem = t.prog by simp [Task.rem, hpc]] at hb
-        refine ⟨CI_repc _ hc htx (fun _ => by simpa [Task.rem] using hb) (by simp) (by simp) (by simp), ?_⟩
+        refine ⟨CI_repc _ hc htx (fun _ => by simpa [Task.rem] using hb) (by simp) (by simp) (by simp) (by simp), ?_⟩
         simp [contrib, Task.committed, hpc]
     · exact ⟨hci, rfl⟩
   · exact ⟨hci, rfl⟩
@@ -590,7 +721,7 @@ structure World.CounterInv (k : Nat) (m : Mode) (init : Int) (p0 : Nat → List 
 /-- changing the store's value does not disturb a task that has not buffered `k` -/
 theorem CI_change {k : Nat} {S S' : Int} {p0 : List Cmd} {t : Task} (h : CI k S p0 t)
     (hn : t.ctx = true → t.active = true → t.ov.get k = none) : CI k S' p0 t :=
-  { plain := h.plain, start := h.start, seed := h.seed, txpc := h.txpc, commitp := h.commitp
+  { plain := h.plain, start := h.start, seed := h.seed, txpc := h.txpc, commitp := h.commitp, eseed := h.eseed
     body := fun hc ha => by
       have hb := h.body hc ha
       exact ⟨hb.noclob, hb.nodel, fun v hv => (by rw [hn hc ha] at hv; cases hv), hb.none_⟩ }
@@ -703,15 +834,16 @@ theorem CounterInv_init (store : Store) (ts : List Task) (hf : ∀ t ∈ ts, t.F
     · rw [hp, e]
       have f := hf t ht
       have ho := honly t ht
-      refine { plain := ?_, start := ?_, body := ?_, seed := ?_, txpc := ?_, commitp := ?_ }
+      refine { plain := ?_, start := ?_, body := ?_, seed := ?_, txpc := ?_, commitp := ?_, eseed := ?_ }
       · intro hx; rw [hx] at ho; simpa [Task.rem, f.pc, OnlyIncr] using ho
       · intro hx _; rw [hx] at ho; exact ⟨rfl, ho⟩
       · intro hc; rw [f.ctx] at hc; cases hc
       · intro n hpc; rw [f.pc] at hpc; cases hpc
       · intro _ _; exact f.pc
       · intro hpc; rw [f.pc] at hpc; rcases hpc with hpc | hpc <;> cases hpc
+      · intro hpc; rw [f.pc] at hpc; cases hpc
     · rw [hp, e]
-      refine { plain := ?_, start := ?_, body := ?_, seed := ?_, txpc := ?_, commitp := ?_ } <;>
+      refine { plain := ?_, start := ?_, body := ?_, seed := ?_, txpc := ?_, commitp := ?_, eseed := ?_ } <;>
         simp [Task.inert, Task.rem]
   · show (store k).getD 0 = _
     rw [csum_zero]; · simp
